@@ -34,8 +34,8 @@ def _innermost(e):
     return e
 
 
-def rule_identifier_table(ck: Check, repo: Repo) -> None:
-    r = ck.rule("R1", "per-identifier table: ids = {id, strip_plus(id)}; bad ⇔ ids∩map=∅; missing ⇔ ids∩provided=∅; always recorded")
+def rule_identifier_table(ck: Check, repo: Repo, rid: str = "R1") -> None:
+    r = ck.rule(rid, "per-identifier table: ids = {id, strip_plus(id)}; bad ⇔ ids∩map=∅; missing ⇔ ids∩provided=∅; always recorded")
     q = f"{RP}.FileReport.generate"
     fn = repo.func(q)
     ck.analysed_fn(q)
